@@ -411,6 +411,7 @@ type reqEvent struct {
 	Cfg      EngineOpts `json:"cfg"`   // engine options in force
 	Nfirst   int        `json:"nfirst"` // iterations of the pre-VM check (not counted in niter)
 	Initd    bool       `json:"initd"`  // the engine object is initialised after Exec (Finish saves the session only then)
+	Exit     vtok       `json:"exit"`   // the value the engine set aside to append to the output (read from the engine object)
 }
 
 var inputRe = regexp.MustCompile(`^\+?[a-zA-Z0-9].*$`)
@@ -589,6 +590,7 @@ func (h *engineHost) request(input string) *reqEvent {
 	}
 	ev.Ext = all
 	ev.Initd = engineInitd(en)
+	ev.Exit = tok(reflect.ValueOf(en).Elem().FieldByName("exit").String())
 	rec.flushInstr(ev.Panic != "")
 	if h.mode != "L" {
 		h.st = pe.GetState()
